@@ -32,6 +32,8 @@ structure RefRow where
   app : Option Nat
   appParam : Option String
   mandatoryKeys : List String
+  /-- key ↦ (Vendor-ID or 0, AVP code) of the AVP that argument is to be carried by -/
+  keyAvps : List (String × Nat × Nat)
 deriving Repr, DecidableEq
 
 end BV.Command
